@@ -147,6 +147,8 @@ def bool_atom(e, polarity=True):
         return ("const", bool(e[1]) == polarity)
     if e[0] == "k" and e[1] in ("true", "false"):
         return ("const", (e[1] == "true") == polarity)
+    if e[0] == "k" and e[1] in ("true", "false"):
+        return ("const", (e[1] == "true") == polarity)
     return ("bool", sym(e), polarity)
 
 
